@@ -117,6 +117,11 @@ func (c *Client) RefreshGrant(ctx context.Context, refreshToken string) (*openid
 		return nil, fmt.Errorf("unmarshalling token response: %w", err)
 	}
 
+	// access_token is REQUIRED in a successful response (RFC 6749, section 5.1); without it there is nothing to refresh with
+	if len(tokenResponse.AccessToken) == 0 {
+		return nil, fmt.Errorf("token response does not contain an access token")
+	}
+
 	return &tokenResponse, nil
 }
 
